@@ -19,7 +19,8 @@ vars == <<l, resps, refs, cur, mode, sentTo, eomSent, idx, nh, ne, hookPos, envP
 \* (hook / environment-change callbacks, applied packet size) are enforced only when C11 is judged,
 \* so that a defect there does not raise an alarm on C02, C03 or C14.
 Judge == IF "JUDGE" \in DOMAIN IOEnv THEN IOEnv.JUDGE ELSE "ALL"
-J11 == Judge \in {"C11", "ALL"}
+\* (C07 judges them as well: a truncated parse attempt must leave no trace, also not in the hooks)
+J11 == Judge \in {"C11", "C07", "ALL"}
 
 E == Trace[l]
 IsEvent(e) == l <= Len(Trace) /\ Trace[l].ev = e /\ l' = l + 1
@@ -44,6 +45,11 @@ EnvMembers(pk, i) ==
          \o EnvMembers(pk, i + 1)
 NeedSynth(pk) == LET e == PassedIdx(pk) IN e = <<>> \/ ~pk[e[Len(e)]].final
 NExp(pk) == Len(PassedIdx(pk)) + (IF NeedSynth(pk) THEN 1 ELSE 0)
+\* everything the consumer is to see of the current response has arrived: with a library-supplied final DONE
+\* that is the whole message; otherwise it is the server's own final DONE (packages the consumer never sees
+\* and the end-of-message packet may still be on their way)
+RespComplete == IF NeedSynth(resps[cur].pkgs) THEN eomSent /\ sentTo = resps[cur].total
+                ELSE LET e == PassedIdx(resps[cur].pkgs) IN EndOff(resps[cur].pkgs, e[Len(e)]) <= sentTo
 \* number of hook EEDs positioned before package index p
 HooksBefore(pk, p) == Cardinality({i \in 1..Len(pk) : pk[i].hook /\ i < p})
 
@@ -158,7 +164,7 @@ T_UntilEnd ==
                                       \/ E.eeds = EEDs(ustart, NExp(P))
                             \* (a response that ends in the server's own final DONE is complete with that
                             \* package; its end-of-message packet may still be on its way)
-                            /\ (eomSent \/ ~NeedSynth(P)) /\ sentTo = R.total
+                            /\ RespComplete
          [] ucb = "run" /\ E.err = "noready" ->
                             \* a call with wait = false that found nothing queued: nothing was consumed
                             /\ E.ret = "nil" /\ idx' = idx /\ idx = ustart
@@ -167,7 +173,7 @@ T_UntilEnd ==
                             /\ E.ret = "nil" /\ E.err \in {"nil", "eof"} /\ idx' = NExp(P)
                             \* (a response that ends in the server's own final DONE is complete with that
                             \* package; its end-of-message packet may still be on its way)
-                            /\ (eomSent \/ ~NeedSynth(P)) /\ sentTo = R.total
+                            /\ RespComplete
     /\ ucb' = "none"
     /\ UNCHANGED <<resps, refs, cur, mode, sentTo, eomSent, nh, ne, hookPos, envPos, ps, active, fail, ustart, uidx>>
 
